@@ -75,6 +75,10 @@ func (e *Engine) Prelude() string {
 (assert (forall ((b Bytes)) (! (= (bsub b 0 (blen b)) b) :pattern ((bsub b 0 (blen b))))))
 (assert (forall ((A (Array Int Int)) (o Int) (l Int) (lo Int) (hi Int)) (! (=> (and (<= 0 lo) (<= lo hi) (<= hi l)) (= (bsub (view A o l) lo hi) (view A (+ o lo) (- hi lo)))) :pattern ((bsub (view A o l) lo hi)))))
 (assert (forall ((a Bytes) (b Bytes)) (! (=> (and (>= (blen a) 0)) (and (= (bsub (bcat a b) 0 (blen a)) a) (= (bsub (bcat a b) (blen a) (+ (blen a) (blen b))) b))) :pattern ((bcat a b)))))
+; one-byte sequences
+(declare-fun byte1 (Int) Bytes)
+(assert (forall ((x Int)) (! (and (= (blen (byte1 x)) 1) (=> (and (<= 0 x) (<= x 255)) (= (bat (byte1 x) 0) x))) :pattern ((byte1 x)))))
+(assert (forall ((b Bytes)) (! (=> (= (blen b) 1) (= b (byte1 (bat b 0)))) :pattern ((blen b)))))
 ; big-endian integers
 (assert (forall ((b Bytes)) (! (>= (be b) 0) :pattern ((be b)))))
 (assert (forall ((v Int) (l Int)) (! (= (blen (bebytes v l)) (ite (>= l 0) l 0)) :pattern ((bebytes v l)))))
@@ -95,6 +99,19 @@ func (e *Engine) Prelude() string {
 (declare-fun item_wf (Bytes) Bool)
 (assert (forall ((b Bytes)) (! (=> (>= (blen b) 1) (= (enc (cv_raw b)) b)) :pattern ((enc (cv_raw b))))))
 (assert (forall ((c CV)) (! (>= (blen (enc c)) 1) :pattern ((enc c)))))
+; which values the encoder accepts (fxamacker v2.5.0: RawMessage is emitted verbatim and never validated)
+(declare-fun enc_list_ok (CVList) Bool)
+(assert (enc_ok cv_null))
+(assert (forall ((i Int)) (! (enc_ok (cv_int i)) :pattern ((enc_ok (cv_int i))))))
+(assert (forall ((b Bool)) (! (enc_ok (cv_bool b)) :pattern ((enc_ok (cv_bool b))))))
+(assert (forall ((s Str)) (! (enc_ok (cv_tstr s)) :pattern ((enc_ok (cv_tstr s))))))
+(assert (forall ((b Bytes)) (! (enc_ok (cv_bstr b)) :pattern ((enc_ok (cv_bstr b))))))
+(assert (forall ((b Bytes)) (! (enc_ok (cv_raw b)) :pattern ((enc_ok (cv_raw b))))))
+(assert (forall ((l CVList)) (! (= (enc_ok (cv_arr l)) (enc_list_ok l)) :pattern ((enc_ok (cv_arr l))))))
+(assert (forall ((n Int) (c CV)) (! (= (enc_ok (cv_tag n c)) (enc_ok c)) :pattern ((enc_ok (cv_tag n c))))))
+(assert (enc_list_ok cvnil))
+(assert (forall ((h CV) (t CVList)) (! (= (enc_list_ok (cvcons h t)) (and (enc_ok h) (enc_list_ok t))) :pattern ((enc_list_ok (cvcons h t))))))
+
 ; head of a byte string item
 (define-fun b_major ((b Bytes)) Int (div (bat b 0) 32))
 (define-fun b_ai ((b Bytes)) Int (mod (bat b 0) 32))
@@ -106,6 +123,8 @@ func (e *Engine) Prelude() string {
 (define-fun bstr_wf ((b Bytes)) Bool (and (>= (blen b) 1) (= (b_major b) 2) (<= (b_ai b) 27) (>= (blen b) (+ 1 (head_extra b))) (= (blen b) (+ 1 (head_extra b) (head_arg b)))))
 (define-fun head_minimal ((b Bytes)) Bool (or (< (b_ai b) 24) (and (= (b_ai b) 24) (>= (head_arg b) 24)) (and (= (b_ai b) 25) (>= (head_arg b) 256)) (and (= (b_ai b) 26) (>= (head_arg b) 65536)) (and (= (b_ai b) 27) (>= (head_arg b) 4294967296))))
 (define-fun bstr_content ((b Bytes)) Bytes (bsub b (+ 1 (head_extra b)) (blen b)))
+; encoder contract for a byte string item: well-formed, shortest head, content verbatim
+(assert (forall ((b Bytes)) (! (and (bstr_wf (enc (cv_bstr b))) (head_minimal (enc (cv_bstr b))) (= (bstr_content (enc (cv_bstr b))) b)) :pattern ((enc (cv_bstr b))))))
 ; ---- errors ----
 (declare-fun wraps (Any) Any)
 (declare-fun err_text (Any) Str)
